@@ -3,6 +3,7 @@ Case handlers for the tool-level properties C10 (truth table) and C11 (variable 
 -/
 import Rsbdd.Driver.ParseCases
 import Rsbdd.Model.Cli
+import Rsbdd.Model.CliText
 
 namespace Rsbdd
 namespace Driver
@@ -124,10 +125,31 @@ def tableOracle (f : Formula) (cols : List Nat) (o : Options) (rows : List Row) 
           | none => none
         | none => none
 
-/-- `run|text|cls|ord|ocls|opts|exit|header|rows|vlines|rlines|same|gen` -/
+/-- the tool's standard output against the byte model (`Cli.Text.render` of the model's output) and the reader
+of Thm/C10T: `(tie, reader disagreement)` -/
+def stdoutTie (outHex : String) (mOut : Option Output) (header rows vlines rlines : String) : Option String × Option String :=
+  match unhex outHex, mOut with
+  | some bytes, some out =>
+    match String.fromUTF8? bytes with
+    | none => (some "stdout-model.not-utf8", none)
+    | some s =>
+      let real := s.toList
+      let tie := if Cli.Text.render out == real then "stdout-model.identical" else "stdout-model.differs"
+      match Cli.Text.readStdout real with
+      | none => (some "stdout-reader.refused", none)
+      | some ro =>
+        let h := match ro.header with | some h => hexNames h | none => "-"
+        let r := String.intercalate ";" (ro.rows.map showRow)
+        let v := String.intercalate ";" (ro.vlines.map hexNames)
+        let rl := hexNames ro.ordering
+        if h == header && r == rows && v == vlines && rl == rlines then (some tie, none)
+        else (some tie, some s!"the two readers of standard output disagree: {h} {r} {v} {rl}")
+  | _, _ => (none, none)
+
+/-- `run|text|cls|ord|ocls|opts|exit|header|rows|vlines|rlines|same|gen|stdout` -/
 def handleC10 (fields : List String) : Verdict :=
   match fields with
-  | ["run", text, cls, otext, ocls, opts, exitClass, header, rows, vlines, rlines, same, gen] =>
+  | ["run", text, cls, otext, ocls, opts, exitClass, header, rows, vlines, rlines, same, gen, outHex] =>
     match decodeText text cls, parseOpts opts, readRows rows with
     | some t, some o, some realRows =>
       let ordT : Option (Option (List Ch)) :=
@@ -175,8 +197,11 @@ def handleC10 (fields : List String) : Verdict :=
             | none => none
           | none => none
         | _, _ => none
-      { modelOk, modelOut := s!"{mClass} {mHeader} {mRows} {mV} {mR}", oracle := orElse o0 (orElse o1 specO),
-        nontrivial := exitClass == "ok" && realRows.length > 1 }
+      let (tie, readers) := if exitClass == "ok" then stdoutTie outHex mOut header rows vlines rlines else (none, none)
+      { modelOk := modelOk && readers.isNone,
+        modelOut := s!"{mClass} {mHeader} {mRows} {mV} {mR}" ++ (match readers with | some m => " [" ++ m ++ "]" | none => ""),
+        oracle := orElse o0 (orElse o1 specO),
+        nontrivial := exitClass == "ok" && realRows.length > 1, info := tie }
     | _, _, _ => Verdict.badLine "unreadable run line"
   | _ => Verdict.badLine "unknown C10 line"
 
